@@ -129,7 +129,7 @@ def build(site, basic, factor, voltage=208):
 
 
 def bounds(tier, seed):
-    return {"levels": [0, 0.5, 1] if tier == "quick" else [0, 0.25, 0.5, 0.75, 1], "lambdas": [0.25, 0.5, 0.75, 1.0], "bisection_steps": 40, "factors": [0, 0.3, 0.5, 1, 2], "evse_types": ["basic", "real"], "evse_voltage_argument": [208, 200, 240]}
+    return {"levels": [0, 0.5, 1] if tier == "quick" else [0, 0.25, 0.5, 0.75, 1], "lambdas": [0.25, 0.5, 0.75, 1.0], "bisection_steps": 40, "factors": [0, 0.3, 0.5, 1, 2], "evse_types": ["basic", "real"], "evse_voltage_argument": [208, 200, 240, 190]}
 
 
 def space(tier, seed):
@@ -137,7 +137,7 @@ def space(tier, seed):
     for site in SITES:
         # capacity factors: nominal, half, double - and 0.3 (a transformer so small that, seen from the transformer alone, the
         # pod / sub-panel ratings might look implied; they are not: a pod sits on ONE line pair)
-        for basic, f, volt in [(b, f, 208) for b in (True, False) for f in (1, 0.5, 2)] + [(True, 1, 200), (False, 1, 240), (True, 0.3, 208)]:
+        for basic, f, volt in [(b, f, 208) for b in (True, False) for f in (1, 0.5, 2)] + [(True, 1, 200), (False, 1, 240), (True, 0.3, 208), (True, 0.5, 190)]:
             if True:
                 spec = SITES[site]
                 trs = sorted(spec["transformers"])
